@@ -35,6 +35,8 @@ CONSTANTS Deviations,      \* subset of AllDevs: what the implementation model d
           Ops,             \* operator menu for CallOp
           InMenu,          \* graph inputs a derivation may use (subset of 1..4: x, m, f, c)
           Trips,           \* trip counts a Loop may be given (subset of 0..3)
+          FnMenu,          \* functions a derivation may call / inline (indices into Funcs)
+          LitOnly,         \* TRUE: only op calls with a literal operand (focused configs)
           LitMenu,         \* literals a derivation may use (subset of DOMAIN L)
           Kinds,           \* subset of {"if","loop","scan","push","call","inline","ospec","pos"}
           Sim              \* TRUE: random pre-selection (only sound with -simulate)
@@ -316,7 +318,8 @@ CallOp(c, os) ==
      /\ vals' = n.vals /\ cache' = n.cache /\ gn' = n.gn /\ nc' = nc + 1 /\ frames' = n.frames
      /\ UNCHANGED <<scope, fidc, stage, flags, out>>
 DoCallOp == /\ MayCall
-            /\ \E o \in Pick(Ops) : \E c \in Pick(IF Sim /\ Target # 0 /\ RandomElement(1..2) = 1 THEN EasyC(Target) ELSE Cands(o)) : Valid(c) /\
+            /\ \E o \in Pick(Ops) : \E c \in Pick(IF Sim /\ Target # 0 /\ RandomElement(1..2) = 1 THEN EasyC(Target) ELSE Cands(o)) :
+                 (LitOnly => \E i \in 1..Len(c.args) : c.args[i].a = "l") /\ Valid(c) /\
                  \E os \in Pick(OSpecs(IF c.op = "Split" THEN 2 ELSE 1)) : CallOp(c, os)
 
 (* push_module / pop_module *)
@@ -475,7 +478,7 @@ CallFn(f, args, amode, os) ==
      /\ vals' = n.vals /\ cache' = n.cache /\ gn' = n.gn /\ nc' = nc + 1 /\ frames' = n.frames
      /\ UNCHANGED <<scope, fidc, stage, flags, out>>
 DoCallFn == /\ MayCall /\ "call" \in Kinds
-            /\ \E f \in Pick(1..Len(Funcs)) : \E am \in Pick(AModes(Funcs[f])) :
+            /\ \E f \in Pick(FnMenu \cap 1..Len(Funcs)) : \E am \in Pick(AModes(Funcs[f])) :
                  \E args \in Pick(FnArgs(Funcs[f])) : FnValid(f, args, am) /\ \E os \in Pick(OSpecs(Funcs[f].nout)) : CallFn(f, args, am, os)
 
 (* GraphBuilder.call_inline + _inliner.instantiate: the body nodes are cloned into the current graph *)
@@ -523,7 +526,7 @@ InlineFn(f, args, amode, pfx, os) ==
      /\ stage' = IF n.raw THEN "final" ELSE stage         \* the code raises here: nothing can follow
      /\ UNCHANGED <<scope, fidc, out>>
 DoInlineFn == /\ MayCall /\ "inline" \in Kinds
-              /\ \E f \in Pick(1..Len(Funcs)) : \E am \in Pick(AModes(Funcs[f])) :
+              /\ \E f \in Pick(FnMenu \cap 1..Len(Funcs)) : \E am \in Pick(AModes(Funcs[f])) :
                    \E args \in Pick(FnArgs(Funcs[f])) : FnValid(f, args, am) /\
                      \E pfx \in Pick({"", "inl"}) : \E os \in Pick({DefSpec, [m |-> "names", names |-> [i \in 1..Funcs[f].nout |-> "o" \o ToString(nc) \o (IF i = 1 THEN "a" ELSE "b")]]}) :
                        InlineFn(f, args, am, pfx, os)
